@@ -744,7 +744,7 @@ class C12(PropertyCheck):
                     fails.append(f"WeightedForest({V}, {ps}) accepted a parent array with entries outside 0..{V - 1}")
                 except (ValueError, IndexError):
                     pass
-        if not built or not inrange:
+        if not built or not inrange or not acyclic:      # nothing further is defined for an object that is no forest
             tags.append("refused" if not built else "built")
             return {"lines": lines, "impl": impl, "oracle": fails[0] if fails else None,
                     "nontrivial": True, "tags": tags, "mutated": snap.changed()}
